@@ -707,7 +707,7 @@ def gen_commensurable(rng, tier):
 
 
 # round 6: base pairs at the top of the Word range (instantiated in the harness): the powers of the smaller base leave the Word
-# before they reach the larger one — `pow *= base` of ilog_exact (lo^k < hi and lo^(k+1) >= 2^64)
+# before they reach the larger one — `pow.checked_mul(base)` of ilog_exact answers None (lo^k < hi and lo^(k+1) >= 2^64; fix 4fb3784)
 HUGE_PAIRS = [(2 ** 63 + 1, 2), (2, 2 ** 63 + 1), (2 ** 64 - 1, 3), (2 ** 32 + 1, 2 ** 32)]
 
 
@@ -914,7 +914,7 @@ REFINED = [
     "(Dashu.Gen.FloatText) and proved equal to the model's isScaleMarker / hasHexPrefix / fmtSci / fmtRadixTrait (scale_markers_regenerated, "
     "fmt_trait_table_regenerated): a change of a marker, base or flag in the source breaks the build of Props/C08",
     "with_precision never returns more than p digits when the precision shrinks (with_precision_digits)",
-    "Tie A (round 6): ilog_exact of float/src/utils.rs (early returns, loop, tail; also the checked_mul form of the proposed fix) is regenerated "
+    "Tie A (round 6): ilog_exact of float/src/utils.rs (early returns, loop, tail; the checked_mul step of fix 4fb3784 read as `pow *= base` guarded by `the product leaves the Word`) is regenerated "
     "(Dashu.Gen.float_ilogExact) and proved equal to the model's ilogExact for every base >= 2 and every Word n (ilog_exact_regenerated): a fast "
     "path / changed comparison in the source breaks Props/C08 or fails the extraction closed; the precision decision of FBig::with_base "
     "(float/src/convert.rs: which ilog_exact call is down / up, `> 1`, saturating_mul(down), / up, BASE.pow(p).ilog(NewB)) is regenerated "
@@ -1014,11 +1014,10 @@ LEVEL_TEXT = ("PARTIAL. Machine-checked Lean 4 theorems, for every base >= 2, mo
               "Not proved but executed against the real code on every run: Debug, the printing of infinities (all traits). The large-exponent branch (ln/exp) is checked per case with exact "
               "rational arithmetic; it violates the contract on representable inputs and at small precisions (recorded findings). The theorems are about "
               "unbounded exponents; exponent arithmetic at the isize limits (parser, scientific formatter) is compared with the real code on every run "
-              "(directed classes at isize::MIN/MAX). Between two bases near the top of the Word range (2^63+1 and 2, 2^32+1 and 2^32, ...) ilog_exact overflows a Word "
-              "(debug panic, release wrap / endless loop): recorded finding, patch proposed; the model answers what the property requires.")
+              "(directed classes at isize::MIN/MAX); so are conversions between two bases near the top of the Word range (2^63+1 and 2, 2^32+1 and 2^32, ...), "
+              "where ilog_exact must stop when the next power leaves the Word (fix 4fb3784).")
 LEVEL_NOTE = ("Trusted: Lean kernel; axioms propext/Classical.choice/Quot.sound; the correspondence harness, its exact-arithmetic judge "
               "(dashu-ratio) and the generators (sampling); builder-float's rounding model/theorems (C03, C10) and builder-nt's log2 "
-              "replica (C12) are reused. Twelve defects found by this check; ten were repaired in /repo (`fixed:` lines of known_findings.jsonl, patches in "
-              "/verif/proposed_fixes/c08-*.diff) and the model describes the repaired code; the two findings about the ln/exp branch remain recorded, and one found in round 6: "
-              "ilog_exact overflows a Word for base pairs near the top of the Word range (proposed_fixes/c08-ilog-exact-overflow.diff).")
+              "replica (C12) are reused. Thirteen defects found by this check; eleven were repaired in /repo (`fixed:` lines of known_findings.jsonl, patches in "
+              "/verif/proposed_fixes/c08-*.diff) and the model describes the repaired code; the two findings about the ln/exp branch remain recorded.")
 TECHNIQUE = "Lean 4 model + theorems, differential correspondence model vs real code, exact-arithmetic judge for the ln/exp branch"
